@@ -271,23 +271,62 @@ def _eval_pipeline(toks, data):
 
 def render(text, data):
     """One rendering pass of a Go text/template over the supported grammar."""
-    # split into text / action nodes honouring trim markers
+    # split into text / action nodes honouring trim markers; "}}" inside string literals does not close an action
     nodes = []
     pos = 0
-    for m in _ACTION.finditer(text):
-        lit = text[pos:m.start()]
-        if m.group(1):
+    n = len(text)
+    while True:
+        i = text.find("{{", pos)
+        if i < 0:
+            nodes.append(("text", text[pos:]))
+            break
+        lit = text[pos:i]
+        j = i + 2
+        ltrim = False
+        if text.startswith("- ", j) or text.startswith("-\t", j) or text.startswith("-\n", j):
+            ltrim = True
+            j += 1
+        k = j
+        close = -1
+        while k < n:
+            ch = text[k]
+            if ch == '"':
+                k += 1
+                while k < n and text[k] != '"':
+                    if text[k] == "\\":
+                        k += 1
+                    if k < n and text[k] == "\n":
+                        raise TemplateError("unterminated quoted string")
+                    k += 1
+                if k >= n:
+                    raise TemplateError("unterminated quoted string")
+                k += 1
+            elif ch == "`":
+                k = text.find("`", k + 1)
+                if k < 0:
+                    raise TemplateError("unterminated raw string")
+                k += 1
+            elif text.startswith("}}", k):
+                close = k
+                break
+            else:
+                k += 1
+        if close < 0:
+            raise TemplateError("unclosed action")
+        body = text[j:close]
+        rtrim = False
+        if body.endswith(" -") or body.endswith("\t-") or body.endswith("\n-"):
+            rtrim = True
+            body = body[:-1]
+        if ltrim:
             lit = lit.rstrip(" \t\r\n")
         nodes.append(("text", lit))
-        nodes.append(("action", m.group(2), bool(m.group(3))))
-        pos = m.end()
-    nodes.append(("text", text[pos:]))
+        nodes.append(("action", body.strip(), rtrim))
+        pos = close + 2
     # apply right-trim markers
     for i, n in enumerate(nodes):
         if n[0] == "action" and n[2] and i + 1 < len(nodes):
             nodes[i + 1] = ("text", nodes[i + 1][1].lstrip(" \t\r\n"))
-    if "{{" in nodes[-1][1] and "}}" not in nodes[-1][1]:
-        raise TemplateError("unclosed action")
     out = []
     stack = []  # (active_before, branch_taken, currently_active)
 
